@@ -412,6 +412,9 @@ class LinearForm(BasicForm):
             values = tests
 
         variables = self.variables
+        if len(values) != len(variables):
+            raise ValueError('expecting {} test function(s), got {}'.format(len(variables), len(values)))
+
         # Substitute free variables and test functions in ONE simultaneous pass
         subs.update(zip(variables, values))
         expr, _   = self.expr._xreplace(subs)
@@ -519,6 +522,11 @@ class BilinearForm(BasicForm):
         # If needed, convert positional arguments to lists
         if not is_sequence(trials, vector=isinstance(trials, VectorFunction)): trials = [trials]
         if not is_sequence(tests, vector=isinstance(tests, VectorFunction)): tests  = [tests ]
+
+        if len(trials) != len(self.variables[0]):
+            raise ValueError('expecting {} trial function(s), got {}'.format(len(self.variables[0]), len(trials)))
+        if len(tests) != len(self.variables[1]):
+            raise ValueError('expecting {} test function(s), got {}'.format(len(self.variables[1]), len(tests)))
 
         # Concatenate input values into single list
         values = [*trials, *tests]
